@@ -1,17 +1,18 @@
 /-
-  The book invariant (distinct prices, non-negative sizes on every side of every instrument) is preserved by
-  every operation of the Deribit model under exact arithmetic.
+  The book invariant (non-negative sizes on every side of every instrument — the raw sides may be unsorted and may
+  repeat a price; what an order is matched against and what is written back is the normalised side, which has distinct
+  prices) is preserved by every operation of the Deribit model under exact arithmetic.
 -/
-import Proofs.Lemmas.DeribitBook
+import Proofs.Lemmas.DeribitNorm
 namespace Demeter.Deribit
 open Demeter
 
-def BookInv (book : List Instr) : Prop := ∀ i ∈ book, SideOk i.asks ∧ SideOk i.bids
+def BookInv (book : List Instr) : Prop := ∀ i ∈ book, (∀ l ∈ i.asks, 0 ≤ l.size) ∧ (∀ l ∈ i.bids, 0 ≤ l.size)
 
 theorem bookInv_nonneg {book : List Instr} (h : BookInv book) : BookNonneg book :=
-  fun i hi => ⟨(h i hi).1.2, (h i hi).2.2⟩
+  fun i hi => h i hi
 
-theorem bookInv_setAsks {book : List Instr} (h : BookInv book) (n : String) (new : List Level) (hn : SideOk new) :
+theorem bookInv_setAsks {book : List Instr} (h : BookInv book) (n : String) (new : List Level) (hn : ∀ l ∈ new, 0 ≤ l.size) :
     BookInv (setAsks book n new) := by
   intro i hi
   obtain ⟨i0, hi0, rfl⟩ := List.mem_map.mp hi
@@ -19,7 +20,7 @@ theorem bookInv_setAsks {book : List Instr} (h : BookInv book) (n : String) (new
   · exact ⟨hn, (h i0 hi0).2⟩
   · exact h i0 hi0
 
-theorem bookInv_setBids {book : List Instr} (h : BookInv book) (n : String) (new : List Level) (hn : SideOk new) :
+theorem bookInv_setBids {book : List Instr} (h : BookInv book) (n : String) (new : List Level) (hn : ∀ l ∈ new, 0 ≤ l.size) :
     BookInv (setBids book n new) := by
   intro i hi
   obtain ⟨i0, hi0, rfl⟩ := List.mem_map.mp hi
@@ -80,10 +81,12 @@ theorem step_bookInv (c : TokenCfg) (s : DState) (op : Op) (h : BookInv s.book) 
       rw [hs']
       simp only []
       obtain ⟨f, hf⟩ := availAsks_filter ck.ins r.mult
-      have hins := h ck.ins (findInstr_mem (checkTx_ok hck).1)
+      obtain ⟨⟨ins0, hfind, hnorm⟩, _⟩ := checkTx_ok hck
+      have hins := h ins0 (findInstr_mem hfind)
+      have hside : SideOk ck.ins.asks := by rw [hnorm]; exact sideOk_normSide hins.1
       apply bookInv_setAsks h
       rw [hfills, hf]
-      exact sideOk_after_order hck ck.ins.asks f (by simp [availSide, hf]) hins.1
+      exact (sideOk_after_order hck ck.ins.asks f (by simp [availSide, hf]) hside).2
   | sell r =>
     rcases hb : sell DCtx.exact c s r with ⟨o, s'⟩
     cases o with
@@ -94,10 +97,12 @@ theorem step_bookInv (c : TokenCfg) (s : DState) (op : Op) (h : BookInv s.book) 
       rw [hs']
       simp only []
       obtain ⟨f, hf⟩ := availBids_filter hbids
-      have hins := h ck.ins (findInstr_mem (checkTx_ok hck).1)
+      obtain ⟨⟨ins0, hfind, hnorm⟩, _⟩ := checkTx_ok hck
+      have hins := h ins0 (findInstr_mem hfind)
+      have hside : SideOk ck.ins.bids := by rw [hnorm]; exact sideOk_normSide hins.2
       apply bookInv_setBids h
       rw [hfills, hf]
-      exact sideOk_after_order hck ck.ins.bids f (by simp [availSide, hbids, hf]) hins.2
+      exact (sideOk_after_order hck ck.ins.bids f (by simp [availSide, hbids, hf]) hside).2
   | deposit a =>
     simp only [step, deposit]
     split
